@@ -210,6 +210,34 @@ CLAIMED['C08'] = {
     'note': 'Trusted: Coq kernel; hand transcription of XmlOut/XmlIn/Writer; Spec/C08_spec.v; tools/gen (maps.py, c08.py); expat; extraction.',
     'technique': 'Coq refinement proof (writer monad vs abstract XML events) + per-map vm_compute facts + extracted-model correspondence + round-trip oracle',
 }
+CLAIMED['C07'] = {
+    'text': 'PARTIAL. Theorem C07_driver_total: for every environment whose maps satisfy the computable predicate map_ok (walker, '
+            'validator and envelope-shape well-formedness) and EVERY text with plain delimiters, the model of x12n_document with the '
+            'sinks off returns a verdict or raises X12Error / EngineError, nothing else; C07_shipped_environment_ok proves, by '
+            'evaluation over the maps regenerated on each run, that the shipped configuration is such an environment (three maps are '
+            'outside and named); built from C07_walker_total (the walker raises nothing for any segment), C07_validation_total '
+            '(segment validation raises nothing), the error-handler cursor invariant and the reader totality theorem. The premise '
+            'is shown necessary (C07_letter_terminator_raises, a recorded finding). Not proved: totality of the HTML / XML / '
+            'acknowledgement sinks and of the context reader — checked on the implementation over generated documents, structural '
+            'mutations and arbitrary strings under all 8 sink subsets, with the whole-pipeline model compared on every run.',
+    'design_ref': 'DESIGN.md §6 C07, §11',
+    'note': 'Trusted: Coq kernel (vm_compute for per-map facts); hand transcriptions Driver/Walker/Element/Errh/Reader/Raw/Pipeline; '
+            'tools/gen/maps.py; extraction. Sinks and context reader: oracle + correspondence only.',
+    'technique': 'Coq proof (Hoare-style safety over the driver monad with an error-handler cursor invariant; per-map facts by vm_compute) + extracted-model correspondence + oracle',
+}
+CLAIMED['C06'] = {
+    'text': 'PARTIAL. Theorems C06_997_envelope_recount / C06_999_envelope_recount: for EVERY error-handler state, whenever the visitor '
+            'completes, the lines written are those of a segment list passing an independent recount: one ISA (16 elements), one GS, '
+            'sets numbered 0001.. with SE01 = segments actually in the set, SE02 = ST02, GE01 = number of sets, GE02 = GS06, IEA01 = 1, '
+            'IEA02 = ISA13 (hypotheses: digit clock; for the 997 a GS06 without * and not ending in ~, shown necessary by a proved '
+            'counterexample). Not proved: re-reading the text without envelope error when echoed values contain the '
+            'acknowledgement\'s delimiters (recorded finding), the visitor raising (swallowed: cut-short acknowledgement), '
+            're-validation. The check parses, recounts, re-reads and re-validates every acknowledgement the implementation writes '
+            'for generated documents and compares the whole-pipeline model.',
+    'design_ref': 'DESIGN.md §6 C06, §11',
+    'note': 'Trusted: Coq kernel; hand transcriptions Ack997/Ack999/Errh/Writer/Pipeline; Spec/C06_spec.v recount; extraction.',
+    'technique': 'Coq proof (invariant over the visitor run; writer theorems of C11 reused for the 999) + extracted-model correspondence + oracle',
+}
 
 NOT_YET = {
 }
